@@ -126,4 +126,17 @@ PROPS = {
             rapid_stage("reuse", "TestC07Reuse", 400, 4000),
         ],
     },
+    "C09": {
+        "level": "exploration",
+        "rule": "two halves. forward: rapid-generated merge plans (C05/C06/C13 generators, all chunk modes, doc values, thesauri, optional wide leaf; vector fields under the vectors tag); every merge output and the persisted form of up to three leaves per case is decoded by an independent reader (harness/indep, written from zap.md/README and a layout description only, never importing zapx) and its observation is compared with the reference model, plus CRC / chunk-mode footer checks. corpus: 38 files written by the pinned release (commit 562467b + add-only hooks) covering every section type except vectors, chunk modes {1,3,1024,1025,1026}, > 64 KiB stored values, thesauri, 1-hit entries from merges and the empty segment are re-opened by the current code on every run and must give exactly the answers recorded when they were written (and the model's, and the independent reader's); non-trivial (forward) = a file with >= 2 fields and a postings list with >= 2 hits or doc values; every frozen file counts as non-trivial",
+        "assumptions": COMMON_ASSUME + ["the independent reader is itself trusted as a faithful reading of the documented layout; vector index blobs are the fake engine's own format, only their envelope (id table, lengths) is covered", "one frozen file contains a thesaurus block without NST written by the pinned release (a repaired defect); it is checked for unchanged answers but not decoded independently"],
+        "technique": "property-based testing (rapid) with an independent decoder as oracle (forward) and differential replay of a frozen corpus written by the pinned release (backward)",
+        "level_text": "Randomised exploration with shrinking for the forward direction; the backward direction is a fixed corpus, re-read exhaustively on every run.",
+        "level_note": "Trusts the independent reader (1100 lines, own tests) and vellum/roaring/snappy.",
+        "stages": [
+            {"name": "corpus", "test": "TestC09Corpus", "tags": "verif", "quick": {"shards": 1, "timeout": 300}, "thorough": {"shards": 1, "timeout": 300}},
+            rapid_stage("forward", "TestC09", 200, 1200),
+            rapid_stage("forward-vectors", "TestC09", 60, 400, tags="verif,vectors", tshards=4),
+        ],
+    },
 }
